@@ -1,7 +1,14 @@
 import MicroHttp.Props.C05
+import MicroHttp.Props.Tables
 #print axioms MicroHttp.C05.layout
 #print axioms MicroHttp.C05.length_rule
 #print axioms MicroHttp.C05.built_selfDelimiting
 #print axioms MicroHttp.C05.roundtrip
 #print axioms MicroHttp.C05.view_status_version
 #print axioms MicroHttp.C05.sink_independent
+#print axioms MicroHttp.Tables.default_server
+#print axioms MicroHttp.Tables.allow_delimiter
+#print axioms MicroHttp.Tables.response_literals
+#print axioms MicroHttp.Tables.response_literals_used
+#print axioms MicroHttp.Tables.status_raw
+#print axioms MicroHttp.Tables.version_raw
